@@ -143,6 +143,12 @@ def cases(rng, tier):
                       target=rstr(rng, 0, 6),
                       thread=rstr(rng, 0, 6, nul=False) if rng.chance(2, 3) else None,
                       mdc=rmdc(rng, rng.below(5))))
+    # 3d. lines whose length is EXACTLY a multiple of a power-of-two block (8192, 16384; thorough: 4096, 32768 too):
+    # consecutive message lengths over a window wide enough to contain the one that makes the object end on the
+    # block boundary, whatever the lengths of the time stamp and the thread id of the run are
+    for block in ([8192, 16384] if tier == "quick" else [4096, 8192, 16384, 32768]):
+        for L in range(block - 230, block - 110):
+            out.append(mk(3, ["m" * (L // 2), "n" * (L - L // 2)], target="t"))
     # 3c. the MDC entries are inserted by the MESSAGE while it is formatted (10th element 1; empty history as 9th)
     for _ in range(150 if tier == "quick" else 2000):
         base = rng.choice(out)
